@@ -13,6 +13,11 @@
 // proxy ops:  E,k0,k1[,w...]  evaluate an individual whose signature is
 //             (k0,k1); w... is what the wrapped evaluator returns at this
 //             moment if it is called          C  proxy.clear()
+//   D <bits> <examples> <gap> <seed> <op>...   the proxy around an evaluator
+//             that reads the CURRENT training set of a src_problem driven by
+//             the real vita::dss (oracle only, no model): E,k0,k1 evaluate
+//             through the proxy and directly; G,<generation> dss.shake(g);
+//             Q dss.close(0);  output e=<proxy>/<called>|<direct>, g=<0|1>
 // keys and fitness components are hexadecimal 64-bit patterns.
 // output: one line, one token per F / S / E op, then the dump of the table:
 //   f=<w,w|->   s=<ok>|<dump>|<dump>   e=<w,w|->/<evaluator called 0|1>
@@ -32,6 +37,8 @@
 #include "kernel/evaluator_proxy.h"
 #undef private
 #undef protected
+#include "kernel/random.h"
+#include "kernel/gp/src/dss.h"
 
 using namespace vita;
 
@@ -175,8 +182,71 @@ static void proxy_script(unsigned bits, const std::vector<std::string> &ops, std
   out << "D=" << dump(proxy.cache_) << '\n';
 }
 
+// fitness = f(signature, current training set): the sum of the labels of the
+// training examples mixed with the signature, and the size of the set
+struct data_evaluator : public evaluator<ind>
+{
+  const dataframe *training = nullptr;
+  unsigned calls = 0;
+  fitness_t operator()(const ind &x) override
+  {
+    ++calls;
+    double sum(0.0);
+    for (const auto &e : *training)
+      sum += label_as<double>(e);
+    fitness_t f(with_size(2), 0.0);
+    f[0] = sum + static_cast<double>(x.sig.data[0] % 1000);
+    f[1] = static_cast<double>(training->size());
+    return f;
+  }
+};
+
+static void dss_script(const std::vector<std::string> &w, std::ostream &out)
+{
+  const unsigned bits(static_cast<unsigned>(std::stoul(w[1])));
+  const unsigned examples(static_cast<unsigned>(std::stoul(w[2])));
+  const unsigned gap(static_cast<unsigned>(std::stoul(w[3])));
+  random::seed(static_cast<unsigned>(std::stoul(w[4])));
+
+  std::ostringstream csv;
+  for (unsigned i(0); i < examples; ++i)
+    csv << (i * i + 1) << ".5," << i << "\n";
+  std::istringstream in(csv.str());
+  src_problem prob(in);
+  prob.env.dss = gap;
+
+  data_evaluator direct;
+  direct.training = &prob.data(dataset_t::training);
+  evaluator_proxy<ind, data_evaluator> proxy_t(direct, bits);
+  evaluator_proxy<ind, data_evaluator> proxy_v(direct, bits);
+  dss d(prob, proxy_t, proxy_v);
+  d.init(0);
+
+  for (std::size_t n(5); n < w.size(); ++n)
+  {
+    const auto p(split(w[n], ','));
+    const char o(p[0][0]);
+    if (o == 'E')
+    {
+      ind x{hash_t(unhex(p[1]), unhex(p[2]))};
+      const unsigned before(proxy_t.eva_.calls);
+      const fitness_t f(proxy_t(x));
+      out << "e=" << show_fit(f) << '/' << (proxy_t.eva_.calls - before) << '|'
+          << show_fit(direct(x)) << ' ';
+    }
+    else if (o == 'G')
+      out << "g=" << d.shake(static_cast<unsigned>(std::stoul(p[1]))) << ' ';
+    else if (o == 'Q')
+      d.close(0);
+    else
+      out << "BADOP ";
+  }
+  out << "D=" << dump(proxy_t.cache_) << '\n';
+}
+
 int main()
 {
+  log::reporting_level = log::lOFF;
   std::string line;
   while (std::getline(std::cin, line))
   {
@@ -190,6 +260,8 @@ int main()
         table_script(static_cast<unsigned>(std::stoul(w[1])), w, 2, out);
       else if (w[0] == "P")
         proxy_script(static_cast<unsigned>(std::stoul(w[1])), w, 2, out);
+      else if (w[0] == "D" && w.size() >= 5)
+        dss_script(w, out);
       else
         out << "BADLINE\n";
     }
